@@ -281,6 +281,7 @@ fn run_c05(seed: u64, tier: Tier) -> i32 {
     sample_below: 3,
   };
   let gagg = run_plan(&gplan);
+  eprintln!("phase growth: {:.1}s", t0.elapsed().as_secs_f64());
   // phase 2: seeded search over worlds x faults
   let total = runs_from_env(match tier {
     Tier::Quick => 24_000,
@@ -298,14 +299,17 @@ fn run_c05(seed: u64, tier: Tier) -> i32 {
     sample_below: 6,
   };
   let mut agg = run_plan(&plan);
+  eprintln!("phase search: {:.1}s ({} deaths)", t0.elapsed().as_secs_f64(), agg.deaths.len());
 
   let known = report::load_known().unwrap_or_default();
   let mut raw: Vec<(u64, Violation)> = Vec::new();
   let mut notes: Vec<String> = Vec::new();
-  let max_deaths = if tier == Tier::Quick { 400 } else { 2000 };
+  let max_deaths = if tier == Tier::Quick { 600 } else { 3000 };
+  let mut not_triaged = 0u64;
   for (check, a) in [("c05g", &gagg), ("c05", &agg)] {
-    // deaths are triaged in parallel: each needs a handful of child executions
+    // deaths are attributed in parallel: each needs one child execution with the operation trace on
     let deaths: Vec<&Death> = a.deaths.iter().take(max_deaths).collect();
+    not_triaged += (a.deaths.len() - deaths.len()) as u64;
     let results: std::sync::Mutex<Vec<(u64, Result<Violation, String>)>> = std::sync::Mutex::new(Vec::new());
     let next = std::sync::atomic::AtomicUsize::new(0);
     std::thread::scope(|sc| {
@@ -338,35 +342,66 @@ fn run_c05(seed: u64, tier: Tier) -> i32 {
     eprintln!("note: {}", n);
   }
   *agg.probes.entry("death_unconfirmed".into()).or_default() += notes.len() as u64;
-  // minimise every violation (in parallel), label stack overflows, then group by (class, signature, minimised world)
-  let minimised: std::sync::Mutex<Vec<(u64, Violation)>> = std::sync::Mutex::new(Vec::new());
+  *agg.probes.entry("deaths_not_triaged".into()).or_default() += not_triaged;
+  // the reproducers of the listed known findings are executed on every run (directed runs), so that a
+  // known finding is re-confirmed (or seen to be gone) whatever the seed
+  let mut directed = 0u64;
+  for k in known.iter().filter(|k| k.property == "C05" && k.status == "known") {
+    for (j, w) in k.reproducer["worlds"].as_array().cloned().unwrap_or_default().iter().enumerate() {
+      directed += 1;
+      let r = exec_isolated("c05", w, 20);
+      let mut got: Option<Violation> = None;
+      if r.died() {
+        let class = triage::death_class(&r.how, &r.stderr);
+        got = Some(Violation { class: class.into(), signature: format!("{}:{}", w["ops"][0].as_str().unwrap_or("?"), class), world: w.clone(), detail: format!("process {} ({}) on the reproducer of {}", r.how, class, k.id) });
+      } else if let Some(v) = r.violations.first() {
+        got = Some(v.clone());
+      }
+      match got {
+        Some(v) => raw.push((1_000_000_000 + directed, v)),
+        None => println!("note: reproducer {} of known finding {} no longer fails", j, k.id),
+      }
+    }
+  }
+  *agg.probes.entry("directed_known_reproducers".into()).or_default() += directed;
+  eprintln!("phase attribution+directed: {:.1}s ({} raw violations)", t0.elapsed().as_secs_f64(), raw.len());
+  // group by a cheap key on the raw world, minimise the two smallest worlds of every group (in parallel),
+  // label stack overflows; known findings are matched on the minimised world only
+  let mut groups: std::collections::BTreeMap<String, Vec<usize>> = Default::default();
+  for (i, (_, v)) in raw.iter().enumerate() {
+    let key = if v.class == "super-polynomial" { format!("sp|{}", v.signature) } else { c05t::pre_key(v) };
+    groups.entry(key).or_default().push(i);
+  }
+  let mut reps: Vec<(usize, u64)> = Vec::new(); // (index into raw, group size)
+  for (_, idxs) in groups.iter_mut() {
+    idxs.sort_by_key(|i| (c05t::world_size(&raw[*i].1), raw[*i].0));
+    let n = idxs.len() as u64;
+    for i in idxs.iter().take(2) {
+      reps.push((*i, n));
+    }
+  }
+  *agg.probes.entry("violation_groups".into()).or_default() += groups.len() as u64;
+  *agg.probes.entry("violations_raw".into()).or_default() += raw.len() as u64;
+  let minimised: std::sync::Mutex<Vec<(u64, Violation, u64)>> = std::sync::Mutex::new(Vec::new());
   let next = std::sync::atomic::AtomicUsize::new(0);
-  let cache: std::sync::Mutex<std::collections::BTreeMap<String, String>> = std::sync::Mutex::new(Default::default());
   std::thread::scope(|sc| {
-    for _ in 0..workers {
+    for _ in 0..workers.min(reps.len().max(1)) {
       sc.spawn(|| loop {
         let i = next.fetch_add(1, std::sync::atomic::Ordering::SeqCst);
-        if i >= raw.len() {
+        if i >= reps.len() {
           break;
         }
-        let (idx, v) = &raw[i];
+        let (ri, n) = reps[i];
+        let (idx, v) = &raw[ri];
         if v.class == "super-polynomial" {
-          minimised.lock().unwrap().push((*idx, v.clone()));
+          minimised.lock().unwrap().push((*idx, v.clone(), n));
           continue;
         }
-        let mut m = c05t::minimise_world("c05", v, 120);
+        let mut m = c05t::minimise_world("c05", v, 60);
         if m.class == "stack-overflow" || m.class == "abort" || m.class == "abort-on-allocation" {
-          let key = m.world.to_string();
-          let cached = cache.lock().unwrap().get(&key).cloned();
-          let wh = match cached {
-            Some(w) => w,
-            None => {
-              let w = c05t::gdb_where("c05", &m.world);
-              cache.lock().unwrap().insert(key, w.clone());
-              w
-            }
-          };
-          m.signature = format!("{}:{}", m.signature, wh);
+          // a label for the reader; never part of the verdict or of known-finding matching
+          let wh = c05t::gdb_where("c05", &m.world);
+          m.detail = format!("{} [recurring frames: {}]", m.detail, wh);
         }
         if m.class == "hang" {
           // confirm alone against 3 x T(n), T(n) = 5 s + 1 us x n^3
@@ -383,31 +418,19 @@ fn run_c05(seed: u64, tier: Tier) -> i32 {
             }
           }
         }
-        minimised.lock().unwrap().push((*idx, m));
+        minimised.lock().unwrap().push((*idx, m, n));
       });
     }
   });
   let mut minimised = minimised.into_inner().unwrap();
+  eprintln!("phase minimise: {:.1}s ({} representatives)", t0.elapsed().as_secs_f64(), minimised.len());
   minimised.sort_by_key(|x| x.0);
   let mut findings = Vec::new();
-  let mut seen: Vec<(String, String, bool)> = Vec::new();
-  for (run, v) in minimised {
+  for (run, v, _n) in minimised {
     if v.class == "slow-unconfirmed" || v.class == "slow-but-returns" {
       *agg.probes.entry(v.class.replace('-', "_")).or_default() += 1;
       continue;
     }
-    // keep one finding per (class, signature, known?) -- a known match must not hide an unknown one
-    let is_known = known.iter().any(|k| {
-      k.status == "known" && k.property == "C05" && k.class == v.class && k.signature == v.signature && k.predicate.as_ref().map(|p| c05t::predicate(p, &v)).unwrap_or(true)
-    });
-    let key = (v.class.clone(), v.signature.clone(), is_known);
-    if seen.contains(&key) {
-      if is_known {
-        findings.push(report::Finding { run, violation: v });
-      }
-      continue;
-    }
-    seen.push(key);
     findings.push(report::Finding { run, violation: v });
   }
   // merge phase 1 into the evidence
